@@ -21,6 +21,8 @@ EXPLANATION = (
     "compared with the constructor defaults of a fresh run. C08.b: the configured initial water content (thini) is "
     "never aliased with the live water content and never written in place (alias/effect analysis over initialisation "
     "and stepping). C08.c: the season reset rewrites the CO2 factor of the starting season's own (deep-copied) crop. "
+    "C08.d: no in-place store below _perform_timestep targets the weather matrix or a numpy view of it (slices and "
+    "boolean-mask selections are distinguished by the view/copy table), so every season reads the weather the single-season run reads. "
     "NOT decided: bitwise equality of the two runs.")
 
 L = frozenset
@@ -339,4 +341,30 @@ def run(chk, prog, tier):
     rule_a(chk, prog)
     rule_b(chk, prog)
     rule_c(chk, prog)
+    rule_d(chk, prog)
     chk.exhaustive = True
+
+
+def rule_d(chk, prog):
+    """everything a season reads besides the restored state must be the same in the multi-season run and in the single-season run:
+    the weather matrix is never written while stepping (C12.a restricted to the weather paths; a season-start routine that edits a
+    view of it - e.g. clipping temperatures in place - changes what the later seasons see)"""
+    roles = step_roles(prog)
+    n = 0
+    for key in sorted(roles.reached):
+        fi = prog.funcs[key]
+        where = f"{fi.module}:{fi.qualname}"
+        for st in stores(prog, fi, roles):
+            if st.kind == "attr" and not any(p.startswith("WEATHER") for p in st.paths):
+                continue
+            # in-place stores whose target may be (a view of) the weather matrix
+            w = sorted(p for p in st.paths if p == "WEATHER" or p.startswith("WEATHER[") or p.startswith("WEATHER."))
+            if st.kind in ("elem", "aug", "mutcall"):
+                n += 1
+                if w:
+                    chk.violation("C08.d", where, st.text, f"in-place {st.kind} store into the model's weather matrix ({', '.join(w)}): the later "
+                                  "seasons of a multi-season run then read different weather than a run started at their planting date",
+                                  loc=fi.loc(st.node))
+                else:
+                    chk.ok("C08.d", where, st.text, "target is not (a view of) the weather matrix", nontrivial=False)
+    chk.floor("C08.d", n, 60, "in-place stores examined below _perform_timestep")
